@@ -36,7 +36,7 @@ def gen_graph(rng, nclasses=None, ninst=None, nprops=None, bnodes=True, maxcard=
                 r = rng.random()
                 if r < 0.4:
                     if langs and rng.random() < 0.25:
-                        o = L('v%d' % rng.randint(0, 3), XSD + 'string', rng.choice(['en', 'es-ES']))
+                        o = L('v%d' % rng.randint(0, 3), XSD + 'string', rng.choice(['en', 'es-ES', 'es-419', 'de-CH-1901']))      # digits are legal in later subtags
                     elif rng.random() < 0.08:
                         # a plain string whose text is the address (or label) of a node of the graph: still a literal
                         o = L(rng.choice(nodes)[1], XSD + 'string')
